@@ -32,3 +32,23 @@ Proof.
   rewrite (L2 _ _ _ Hb Hreq) in Hc. unfold http_classify in Hc. rewrite decode_encode in Hc by exact Hwf.
   destruct (rt e0); try discriminate. inversion Hc; subst. exact Hrd.
 Qed.
+
+(* No refusal depends on the size of an envelope: the encoding of EVERY canonical envelope whose
+   source maps to an address is classified "deliver, as that envelope" - however long its body is.
+   With http_400_iff: such a request is never answered 400. *)
+Lemma http_accepts_every_envelope : forall (rt : rpc -> route) e a,
+  wf e = true -> rt e = RtAddr a -> http_classify decode rt (BBytes (encode e)) = VDeliver a e.
+Proof.
+  intros rt e a Hwf Hrt. unfold http_classify. rewrite (decode_encode e Hwf), Hrt. reflexivity.
+Qed.
+
+Lemma http_never_400_on_envelope : forall rt iv tmo now ls (s : hst rpc bytes) q e a,
+  h_run decode rt iv tmo now ls = Some s -> wf e = true -> rt e = RtAddr a ->
+  In (HEvReq q (BBytes (encode e))) (hs_log s) ->
+  (forall b, In (HEvReq q b) (hs_log s) -> b = BBytes (encode e)) ->
+  ~ In (HEvResp q 400) (hs_log s).
+Proof.
+  intros rt iv tmo now ls s q e a Hrun Hwf Hrt Hreq Huniq H400.
+  destruct (proj1 (@http_400_iff _ _ decode rt iv tmo now ls s q Hrun) H400) as (b & why & Hb & Hc).
+  rewrite (Huniq b Hb), (http_accepts_every_envelope rt e a Hwf Hrt) in Hc. discriminate.
+Qed.
